@@ -336,3 +336,26 @@ def lifecycle_cases(sizes=(2, 3)):
                          ('cmd', 8, [b'exec']), ('close', 9), [b'publish', b'ch1', b'm4']]
                 out.append(case)
     return out
+
+
+# ------------------------------------------------------------------ SORT (C02)
+
+def sort_cases():
+    """SORT over a list, a sorted set and a single-element set: every combination of BY (none / nosort / weights / hash field / two BYs), ASC|DESC,
+    ALPHA, LIMIT, GET, STORE on a small scale"""
+    import itertools
+    mk = [[b'rpush', b'l', b'3', b'1', b'2', b'1'], [b'zadd', b'z', b'1', b'3', b'2', b'1', b'3', b'2'], [b'sadd', b's', b'7'],
+          [b'mset', b'w_1', b'30', b'w_2', b'20', b'w_3', b'10', b'd_1', b'one', b'd_2', b'two'], [b'hset', b'h_1', b'f', b'5'], [b'hset', b'h_2', b'f', b'4'], [b'hset', b'h_3', b'f', b'6']]
+    bys = [[], [b'by', b'nosort'], [b'by', b'w_*'], [b'by', b'h_*->f'], [b'by', b'nosort', b'by', b'w_*'], [b'by', b'w_*', b'by', b'nosort'], [b'by', b'h_*->'], [b'BY', b'nokey_*']]
+    orders = [[], [b'desc'], [b'asc'], [b'alpha'], [b'alpha', b'desc']]
+    limits = [[], [b'limit', b'0', b'2'], [b'limit', b'1', b'-1'], [b'limit', b'2', b'5'], [b'limit', b'9', b'1'], [b'limit', b'-1', b'2']]
+    gets = [[], [b'get', b'#'], [b'get', b'd_*', b'get', b'#'], [b'get', b'h_*->f']]
+    for src in (b'l', b'z', b's', b'missing'):
+        for by, od, lim, gt in itertools.product(bys, orders, limits, gets):
+            if len(lim) and len(gt) > 2 and len(by) > 2:
+                continue
+            yield mk + [[b'sort', src] + by + od + lim + gt]
+        for by, od in itertools.product(bys, orders):
+            yield mk + [[b'sort', src] + by + od + [b'store', b'dst'], [b'lrange', b'dst', b'0', b'-1'], [b'type', b'dst']]
+    yield mk + [[b'sort', b'w_1'], [b'sort', b'h_1', b'by', b'nosort'], [b'sort', b'l', b'limit', b'0'], [b'sort', b'l', b'limit', b'a', b'1'], [b'sort', b'l', b'foo'],
+                [b'rpush', b'bad', b'1', b'x'], [b'sort', b'bad'], [b'sort', b'bad', b'alpha'], [b'sort', b'bad', b'by', b'nosort'], [b'sort', b'bad', b'store', b'dst2'], [b'exists', b'dst2']]
